@@ -1020,7 +1020,8 @@ theorem spec2_mapLit (hb : E .budget) (cfg : CheckCfg) (c : SCfg) (cs : List OTy
 
 /-! ### `matches` -/
 
-/-- **the hypothesis on regular expressions**: every pattern the program meets compiles (for a constant
+/-- (superseded by `RegexOn` / `spec2_matches_lit`, which `frag2_sound` uses; kept for computed patterns under the
+stronger assumption) **the hypothesis on regular expressions**: every pattern the program meets compiles (for a constant
 pattern the compiler has checked it; a computed pattern that does not compile is a run-time failure that
 depends on the pattern's value, which `Spec.eval` reports in the type class) -/
 def RegexTotal (c : SCfg) : Prop := ∀ pat subj, (c.world.regexMatch pat subj).isSome = true
@@ -1089,6 +1090,56 @@ theorem spec2_matches (cfg : CheckCfg) (c : SCfg) (hre : RegexTotal c) (cs : Lis
         intro b hb
         obtain ⟨pat, rfl⟩ := hb
         exact hmatch pat subj
+
+/-- **the hypothesis on regular expressions, as the fragment needs it**: the patterns admitted by `ok`
+compile.  (A faithful world does not compile every pattern — `"("` —; the fragment admits `matches` only
+with a pattern that is a string literal `ok` accepts, so the failure "bad pattern", which `Spec.eval` reports
+in the type class, cannot arise.  A computed pattern stays outside.) -/
+def RegexOn (c : SCfg) (ok : String → Bool) : Prop :=
+  ∀ pat subj, ok pat = true → (c.world.regexMatch pat subj).isSome = true
+
+/-- `x matches "lit"` with a literal pattern that compiles -/
+theorem spec2_matches_lit (cfg : CheckCfg) (c : SCfg) (cs : List OTy) (m mr : Meta) (pat : String) (l : Node)
+    (hpat : ∀ subj, (c.world.regexMatch pat subj).isSome = true)
+    (ihl : Spec2 E cfg c cs l)
+    (hl : ∀ t, synth cfg cs l = some t → vtyOf t = some (.sc .string)) :
+    Spec2 E cfg c cs (.matches m true l (.str mr pat)) := by
+  intro τ V hs hV st hst
+  simp only [synth] at hs
+  cases hsl : synth cfg cs l with
+  | none => rw [hsl] at hs; cases hs
+  | some lt =>
+    rw [hsl] at hs
+    simp only [] at hs
+    have hrule := toOption'_some hs
+    obtain ⟨e1, _, ev1⟩ := ihl lt (.sc .string) hsl (hl lt hsl) st hst
+    rcases hlv : visit cfg l st with ⟨l', lt', st1⟩
+    rw [hlv] at e1 ev1
+    simp only [] at e1 ev1
+    subst e1
+    have hτ : τ = boolTy := by
+      unfold matchesRule at hrule
+      split at hrule
+      · cases hrule; rfl
+      · cases hrule
+    subst hτ
+    have : V = .sc .bool := by
+      have : vtyOf boolTy = some (.sc .bool) := by decide
+      rw [this] at hV; cases hV; rfl
+    subst this
+    simp only [visit, hlv, hrule, orFail_ok]
+    refine ⟨trivial, setKd_kd _ _, ?_⟩
+    apply smok_evalOKV
+    intro ctx hctx
+    show SMOK E (fun v => ValOfV v (.sc .bool))
+      (eval c ctx (.matches { m with kd := OTy.kind boolTy } true l' (setKd (.str mr pat) stringTy)))
+    simp only [eval, setKd, Node.withMeta, Node.getMeta, if_true]
+    refine smok_bind (evalOKV_smok ev1 ctx hctx) ?_
+    intro a ha
+    obtain ⟨subj, rfl⟩ := ha
+    obtain ⟨mm, hmm⟩ := Option.isSome_iff_exists.1 (hpat subj)
+    simp only [hmm]
+    exact smok_pure ⟨mm, rfl⟩
 
 /-! ### method calls -/
 
